@@ -2,6 +2,7 @@ package main
 
 import (
 	"fmt"
+	"go/types"
 	"math/big"
 	"strings"
 )
@@ -50,10 +51,98 @@ func newBig(t Term) Value {
 var errCounter int
 var arrIDs = map[*Cell]int{}
 
-func newError(site string) Value {
+// VErr is an opaque error object (errors.New / fmt.Errorf): identity plus wrapped causes.
+// Its dynamic "type" is the interface type error itself, which no real value can have.
+type VErr struct {
+	ID     string
+	Causes []VIface
+}
+
+func newError(site string, causes ...VIface) Value {
 	errCounter++
-	// dynamic type: *errors.errorString is fine as an opaque marker; we use a nil-typed marker string
-	return VIface{Typ: errType, Val: VStr{fmt.Sprintf("err@%s#%d", site, errCounter)}}
+	return VIface{Typ: errType, Val: VErr{ID: fmt.Sprintf("err@%s#%d", site, errCounter), Causes: causes}}
+}
+
+// unwrapErr returns the errors directly wrapped by err.
+func (e *Exec) unwrapErr(err VIface) []VIface {
+	if err.Typ == nil {
+		return nil
+	}
+	if err.Typ == errType {
+		return err.Val.(VErr).Causes
+	}
+	ms := e.prog.MethodSets.MethodSet(err.Typ)
+	for i := 0; i < ms.Len(); i++ {
+		sel := ms.At(i)
+		if sel.Obj().Name() == "Unwrap" {
+			fn := e.prog.MethodValue(sel)
+			if fn == nil {
+				continue
+			}
+			switch r := e.call(fn, []Value{err.Val}).(type) {
+			case VIface:
+				if r.Typ != nil {
+					return []VIface{r}
+				}
+			case VSlice:
+				var out []VIface
+				for i := 0; i < r.Len; i++ {
+					out = append(out, load(r.Arr.Elems[r.Off+i]).(VIface))
+				}
+				return out
+			}
+		}
+	}
+	return nil
+}
+
+func (e *Exec) errorsIs(err, target VIface) Term {
+	if err.Typ == nil {
+		return BoolC(target.Typ == nil)
+	}
+	if eq := e.ifaceEq(err, target); !eq.Const || eq.B {
+		if eq.Const {
+			return eq
+		}
+		e.fail("errors.Is with symbolic equality")
+	}
+	for _, c := range e.unwrapErr(err) {
+		if r := e.errorsIs(c, target); r.Const && r.B {
+			return r
+		}
+	}
+	return BoolC(false)
+}
+
+func (e *Exec) errorsAs(err VIface, target VIface) bool {
+	if err.Typ == nil {
+		return false
+	}
+	pt, ok := target.Typ.(*types.Pointer)
+	if !ok {
+		e.fail("errors.As target is not a pointer")
+	}
+	T := pt.Elem()
+	if err.Typ != errType {
+		if types.IsInterface(T) {
+			if types.Implements(err.Typ, T.Underlying().(*types.Interface)) {
+				e.storePtr(target.Val, err)
+				return true
+			}
+		} else if types.Identical(err.Typ, T) {
+			e.storePtr(target.Val, err.Val)
+			return true
+		}
+	} else if types.IsInterface(T) && types.Identical(T, errType) {
+		e.storePtr(target.Val, err)
+		return true
+	}
+	for _, c := range e.unwrapErr(err) {
+		if e.errorsAs(c, target) {
+			return true
+		}
+	}
+	return false
 }
 
 func toInt(t Term, signed bool) Term {
@@ -297,7 +386,20 @@ func init() {
 		return VTuple{[]Value{VInt{sum}, VInt{carry}}}
 	}
 	intrinsics["errors.New"] = func(e *Exec, a []Value) Value { return newError("errors.New:" + strArg(a[0])) }
-	intrinsics["fmt.Errorf"] = func(e *Exec, a []Value) Value { return newError("fmt.Errorf:" + strArg(a[0])) }
+	intrinsics["fmt.Errorf"] = func(e *Exec, a []Value) Value {
+		// every error-valued argument is recorded as a wrapped cause (over-approximates %w)
+		var causes []VIface
+		if sl, ok := a[1].(VSlice); ok && strings.Contains(strArg(a[0]), "%w") {
+			for i := 0; i < sl.Len; i++ {
+				if v, ok := load(sl.Arr.Elems[sl.Off+i]).(VIface); ok && v.Typ != nil {
+					if v.Typ == errType || types.Implements(v.Typ, errType.Underlying().(*types.Interface)) {
+						causes = append(causes, v)
+					}
+				}
+			}
+		}
+		return newError("fmt.Errorf:"+strArg(a[0]), causes...)
+	}
 	intrinsics["fmt.Sprintf"] = func(e *Exec, a []Value) Value { return VStr{"<sprintf>"} }
 }
 
